@@ -912,3 +912,294 @@ Proof.
   destruct (rc_remaining r) as [rem|]; [|apply R].
   destruct (negb (N.eqb (rem - 1) 0)); [apply R|apply F].
 Qed.
+
+(* ------------------------------------------------------------------------------------------ *)
+(* re-keying: replay_active_requests, new_session *)
+
+Lemma pending_ar_update_packet c h old p now : pending (ar_update_packet c h old p now) = pending h.
+Proof.
+  rewrite ar_update_packet_eq. destruct (nmap_get old (nmap h)); [|reflexivity]. cbv zeta.
+  destruct (alist_get n (active h)); reflexivity.
+Qed.
+Lemma sessions_ar_update_packet c h old p now : sessions (ar_update_packet c h old p now) = sessions h.
+Proof.
+  rewrite ar_update_packet_eq. destruct (nmap_get old (nmap h)); [|reflexivity]. cbv zeta.
+  destruct (alist_get n (active h)); reflexivity.
+Qed.
+
+Lemma WI_update c G H0 z ex s cfg old p now na x0 k0 :
+  creq p = Some (x0, k0) -> wcnt x0 k0 (H0 ++ outs s) = 0 -> In k0 G ->
+  occ_pend x0 (pending (hs s)) + z x0 = 0 ->
+  WI c G H0 z ex s ->
+  WI c G H0 z ex (send (with_hs s (ar_update_packet cfg (hs s) old p now)) na p).
+Proof.
+  intros Ep Hf Hk Hc W. unfold WI, send. rewrite hist_emit. cbn [emit with_hs hs outs].
+  rewrite pending_ar_update_packet, sessions_ar_update_packet.
+  eapply WIP_update; eauto.
+Qed.
+
+Lemma replay_fold1_W c na reqs : forall s se pk,
+  let g := (fun (acc : st * session * list (nonce * packet)) r =>
+        let '(s, se, pk) := acc in
+        let '(s', se', p) := encrypt_message c s na se (MReq (rc_rid r) (rc_body r)) in
+        (s', se', pk ++ [(rc_nonce r, p)])) in
+  let res := fold_left g reqs (s, se, pk) in
+  hs (fst (fst res)) = hs s /\ outs (fst (fst res)) = outs s /\
+  incl (sess_keys (snd (fst res))) (sess_keys se) /\
+  exists pk', snd res = pk ++ pk' /\
+    map (fun x => creq (snd x)) pk' = map (fun r => Some (rc_rid r, s_enc se)) reqs.
+Proof.
+  induction reqs as [| r reqs IH]; intros s se pk; cbn zeta; cbn [fold_left].
+  - cbn [fst snd]. split; [reflexivity|split; [reflexivity|split; [apply incl_refl|]]].
+    exists []. rewrite app_nil_r. split; reflexivity.
+  - rewrite encrypt_message_eq.
+    specialize (IH {| hs := hs s; dr := snd (pop_pk (dr s)); outs := outs s |} (bump se)
+      (pk ++ [(rc_nonce r, PMsg (cfg_local c) ((s_counter se + 1)%N, pk_r (dr s)) (pk_aad (dr s))
+         (CEnc (s_enc se) ((s_counter se + 1)%N, pk_r (dr s)) (MReq (rc_rid r) (rc_body r)) (pk_aad (dr s))))])).
+    cbn zeta in IH. destruct IH as (E1 & E2 & E3 & pk' & E4 & E5). cbn [hs outs] in E1, E2.
+    split; [exact E1|split; [exact E2|split; [exact E3|]]].
+    eexists. split; [rewrite E4, <- app_assoc; reflexivity|].
+    cbn [map app snd creq]. rewrite E5. reflexivity.
+Qed.
+
+Lemma replay_fold2_W c G H0 z ex na now k : forall pkts xs s,
+  map (fun x => creq (snd x)) pkts = map (fun xi => Some (xi, k)) xs ->
+  NoDup xs -> In k G ->
+  (forall xi, In xi xs -> wcnt xi k (H0 ++ outs s) = 0 /\ occ_pend xi (pending (hs s)) + z xi = 0) ->
+  WI c G H0 z ex s ->
+  WI c G H0 z ex
+    (fold_left (fun s (x : nonce * packet) =>
+       let s' := with_hs s (ar_update_packet c (hs s) (fst x) (snd x) now) in send s' na (snd x)) pkts s).
+Proof.
+  induction pkts as [|x t IH]; intros xs s Hm Hn Hk Hx W; cbn [fold_left]; [exact W|].
+  destruct xs as [|xi xt]; [discriminate|]. cbn [map] in Hm. injection Hm as Hm1 Hm2.
+  inversion Hn as [|? ? Hn1 Hn2]; subst. destruct (Hx xi (or_introl eq_refl)) as [Hf Hc].
+  cbv zeta. apply (IH xt); [exact Hm2|exact Hn2|exact Hk| |].
+  - intros xj Hj. destruct (Hx xj (or_intror Hj)) as [Hf' Hc'].
+    unfold send. rewrite hist_emit. cbn [emit with_hs hs outs]. rewrite pending_ar_update_packet.
+    split; [|exact Hc']. rewrite wcnt_snoc, wbit_wire, Hf'.
+    destruct (carries xj k (snd x)) eqn:Ec; [|reflexivity].
+    destruct (carries_some _ _ _ _ _ Hm1 Ec) as [E _]. subst xj. contradiction.
+  - eapply WI_update; eauto.
+Qed.
+
+Lemma asum_get_le {A} (w : A -> nat) l na v : alist_get na l = Some v -> w v <= asum w l.
+Proof.
+  induction l as [|[k0 v0] t IH]; cbn [alist_get asum]; [discriminate|].
+  destruct (naddr_eqb na k0); intros E.
+  - inversion E; subst. lia.
+  - specialize (IH E). lia.
+Qed.
+Lemma cntf_in {A} (f : A -> N) l a : In a l -> 1 <= cntf f (f a) l.
+Proof.
+  induction l as [|b t IH]; cbn [In cntf]; [tauto|]. intros [->|H].
+  - rewrite eqn_refl. lia.
+  - specialize (IH H). lia.
+Qed.
+Lemma cntf_nodup {A} (f : A -> N) l : (forall x, cntf f x l <= 1) -> NoDup (map f l).
+Proof.
+  intros H. apply (NoDup_count_occ N.eq_dec). intros x. rewrite <- cntf_count_occ. apply H.
+Qed.
+
+Definition skipf (skip : option nonce) (r : rcall) : bool :=
+  match skip with Some n => negb (nonce_eqb (rc_nonce r) n) | None => true end.
+
+(* Handler::replay_active_requests: the key of the session has carried none of the requests that
+   are replayed *)
+Lemma WI_replay c G H0 z ex s na skip now :
+  WI c G H0 z ex s ->
+  (forall se l r, alist_get na (sessions (hs s)) = Some se -> alist_get na (active (hs s)) = Some l ->
+     In r l -> skipf skip r = true -> wcnt (rc_rid r) (s_enc se) (H0 ++ outs s) = 0) ->
+  WI c G H0 z ex (replay_active_requests c s na skip now).
+Proof.
+  intros W Hpre. unfold replay_active_requests.
+  pose proof (WI_sess_get c G H0 z ex s na W) as Hg. pose proof (sess_get_got (hs s) na) as Hgot.
+  pose proof (sess_get_snd (hs s) na) as Hsnd. pose proof (active_sess_get' (hs s) na) as Hact.
+  pose proof (pending_sess_get (hs s) na) as Hpend.
+  destruct (sess_get (hs s) na) as [h1 se]. cbn [fst snd] in Hg, Hgot, Hsnd, Hact, Hpend.
+  destruct se as [se0|]; [|exact W].
+  set (l := match alist_get na (active h1) with Some l => l | None => [] end).
+  set (reqs := filter _ l).
+  assert (Hreqs : reqs = filter (skipf skip) l) by reflexivity.
+  pose proof (replay_fold1_W c na reqs (with_hs s h1) se0 []) as Hf. cbn zeta in Hf.
+  destruct (fold_left _ reqs (with_hs s h1, se0, [])) as [[s2 se2] pkts]. cbn [fst snd] in Hf.
+  destruct Hf as (E1 & E2 & E3 & pk' & E4 & E5). cbn [hs with_hs outs app] in E1, E2, E4. subst pkts.
+  assert (Hk : forall k, In k (sess_keys se0) -> In k G).
+  { intros k Hk. eapply (W_G _ _ _ _ _ _ _ _ Hg); [apply Hgot; reflexivity|exact Hk]. }
+  assert (W2 : WI c G H0 z ex (with_hs s2 (sess_put (hs s2) na se2))).
+  { unfold WI in *. cbn [with_hs hs outs sess_put set_sessions active pending sessions] in *.
+    rewrite E1, E2. eapply WIP_sess; [|exact Hg].
+    intros na0 se' k Hin Hk'. apply In_alist_set in Hin. destruct Hin as [Hin|Hin].
+    - inversion Hin; subst. apply Hk. apply E3. exact Hk'.
+    - eapply (W_G _ _ _ _ _ _ _ _ Hg); eauto. }
+  assert (Hl : forall r, In r reqs -> In r l /\ skipf skip r = true).
+  { intros r Hr. rewrite Hreqs in Hr. apply filter_In in Hr. exact Hr. }
+  assert (Hocc : forall r, In r l -> 1 <= occ_act (rc_rid r) (active (hs s))).
+  { intros r Hr. unfold l in Hr. rewrite Hact in Hr.
+    destruct (alist_get na (active (hs s))) as [l0|] eqn:El; [|destruct Hr].
+    pose proof (asum_get_le (cntf rc_rid (rc_rid r)) _ _ _ El) as X. pose proof (cntf_in rc_rid l0 r Hr).
+    unfold occ_act. lia. }
+  apply (replay_fold2_W c G H0 z ex na now (s_enc se0) pk' (map rc_rid reqs)).
+  - rewrite map_map. exact E5.
+  - rewrite Hreqs. apply cntf_nodup. intros x.
+    pose proof (cntf_filter_le rc_rid (skipf skip) x l) as X.
+    assert (Y : cntf rc_rid x l <= 1).
+    { unfold l. rewrite Hact. destruct (alist_get na (active (hs s))) as [l0|] eqn:El; [|cbn; lia].
+      pose proof (asum_get_le (cntf rc_rid x) _ _ _ El) as Y. pose proof (W_U _ _ _ _ _ _ _ _ W x) as U.
+      unfold occ_act in U. lia. }
+    lia.
+  - apply Hk. left. reflexivity.
+  - intros xi Hxi. apply in_map_iff in Hxi. destruct Hxi as (r & <- & Hr). destruct (Hl r Hr) as [Hr1 Hr2].
+    cbn [with_hs hs outs sess_put set_sessions pending]. rewrite E1, E2, Hpend. split.
+    + unfold l in Hr1. rewrite Hact in Hr1. destruct (alist_get na (active (hs s))) as [l0|] eqn:El; [|destruct Hr1].
+      apply (Hpre se0 l0 r); auto.
+    + pose proof (Hocc r Hr1). pose proof (W_U _ _ _ _ _ _ _ _ W (rc_rid r)) as U. lia.
+  - exact W2.
+Qed.
+
+Lemma alist_get_set_same {A} (k : naddr) (v : A) l : alist_get k (alist_set k v l) = Some v.
+Proof.
+  induction l as [|[k0 v0] t IH]; cbn [alist_set alist_get].
+  - rewrite HandlerB_Base.naddr_eqb_refl. reflexivity.
+  - destruct (naddr_eqb k k0) eqn:E; cbn [alist_get].
+    + rewrite HandlerB_Base.naddr_eqb_refl. reflexivity.
+    + rewrite E. exact IH.
+Qed.
+
+(* Handler::new_session: the keys of the new session are installed keys; its encryption key has
+   carried none of the requests that will be replayed *)
+Lemma WI_new_session c G H0 z ex s na se skip now :
+  WI c G H0 z ex s -> (forall k, In k (sess_keys se) -> In k G) ->
+  (forall l r, alist_get na (active (hs s)) = Some l -> In r l -> skipf skip r = true ->
+     wcnt (rc_rid r) (s_enc se) (H0 ++ outs s) = 0) ->
+  WI c G H0 z ex (new_session c s na se skip now).
+Proof.
+  intros W Hse Hpre. unfold new_session.
+  pose proof (WI_sess_get c G H0 z ex s na W) as Hg. pose proof (sess_get_got (hs s) na) as Hgot.
+  pose proof (active_sess_get' (hs s) na) as Hact.
+  destruct (sess_get (hs s) na) as [h1 cur]. cbn [fst snd] in Hg, Hgot, Hact.
+  destruct cur as [cs|].
+  - set (cs' := {| s_enc := s_enc se; s_dec := s_dec se; s_old := Some (s_enc cs, s_dec cs);
+                  s_await := s_await se; s_counter := s_counter cs |}).
+    assert (W1 : WI c G H0 z ex (with_hs s (sess_put h1 na cs'))).
+    { unfold WI in *. cbn [with_hs hs outs sess_put set_sessions active pending sessions] in *.
+      eapply WIP_sess; [|exact Hg].
+      intros na0 se' k Hin Hk'. apply In_alist_set in Hin. destruct Hin as [Hin|Hin].
+      - inversion Hin; subst. unfold sess_keys in Hk'. cbn in Hk'.
+        destruct Hk' as [<-|[<-|[<-|[<-|[]]]]].
+        + apply Hse. left. reflexivity.
+        + apply Hse. right. left. reflexivity.
+        + eapply (W_G _ _ _ _ _ _ _ _ Hg); [apply Hgot; reflexivity|left; reflexivity].
+        + eapply (W_G _ _ _ _ _ _ _ _ Hg); [apply Hgot; reflexivity|right; left; reflexivity].
+      - eapply (W_G _ _ _ _ _ _ _ _ Hg); eauto. }
+    assert (W2 : WI c G H0 z ex (replay_active_requests c (with_hs s (sess_put h1 na cs')) na skip now)).
+    { apply WI_replay; [exact W1|]. cbn [with_hs hs outs sess_put set_sessions active sessions].
+      intros se0 l r Hs Hl Hr Hsk. rewrite alist_get_set_same in Hs. inversion Hs; subst se0. cbn [cs' s_enc].
+      rewrite Hact in Hl. eapply Hpre; eauto. }
+    destruct (fix_d2a c); [apply WI_send_pending_requests; exact W2|exact W2].
+  - apply WI_send_pending_requests.
+    unfold WI in *. cbn [with_hs hs outs sess_insert set_sessions active pending sessions] in *.
+    eapply WIP_sess; [|exact Hg].
+    intros na0 se' k Hin Hk'.
+    assert (Hin' : In (na0, se') (alist_remove na (sessions h1) ++ [(na, se)])).
+    { destruct (Nat.ltb _ _); [apply tl_In|]; exact Hin. }
+    apply in_app_or in Hin'. destruct Hin' as [Hin'|[Hin'|[]]].
+    + apply In_alist_remove in Hin'. eapply (W_G _ _ _ _ _ _ _ _ Hg); eauto.
+    + inversion Hin'; subst. apply Hse. exact Hk'.
+Qed.
+
+(* ------------------------------------------------------------------------------------------ *)
+(* inbound packets *)
+
+(* sess_put of a session all of whose keys are installed keys *)
+Lemma WI_sess_put_keys c G H0 z ex s na se' :
+  (forall k, In k (sess_keys se') -> In k G) ->
+  WI c G H0 z ex s -> WI c G H0 z ex (with_hs s (sess_put (hs s) na se')).
+Proof.
+  intros Hk W. unfold WI in *. cbn [with_hs hs outs sess_put set_sessions active pending sessions].
+  eapply WIP_sess; [|exact W]. intros na0 se0 k Hin Hk'. apply In_alist_set in Hin. destruct Hin as [Hin|Hin].
+  - inversion Hin; subst. apply Hk. exact Hk'.
+  - eapply (W_G _ _ _ _ _ _ _ _ W); eauto.
+Qed.
+
+(* Handler::handle_message *)
+Lemma WI_handle_message c G H0 z ex s na n aad ct now :
+  WI c G H0 z ex s -> WI c G H0 z ex (handle_message c s na n aad ct now).
+Proof.
+  intros W. unfold handle_message.
+  pose proof (WI_sess_get c G H0 z ex s na W) as Hg. pose proof (sess_get_got (hs s) na) as Hgot.
+  destruct (sess_get (hs s) na) as [h1 se]. cbn [fst snd] in Hg, Hgot.
+  destruct se as [se|]; [|apply WI_emit_event; exact W].
+  pose proof (decrypt_message_desc se n aad ct) as Hd.
+  destruct (decrypt_message se n aad ct) as [se' m]. cbn [fst] in Hd.
+  assert (Hk : forall k, In k (sess_keys se') -> In k G).
+  { intros k Hk. destruct Hd as [Hd _]. eapply (W_G _ _ _ _ _ _ _ _ Hg); [apply Hgot; reflexivity|apply Hd; exact Hk]. }
+  set (s2 := with_hs (with_hs s h1) (sess_put (hs (with_hs s h1)) na se')).
+  assert (W2 : WI c G H0 z ex s2).
+  { unfold s2. apply WI_sess_put_keys; [exact Hk|exact Hg]. }
+  clearbody s2.
+  destruct m as [[rid body|rid rb|j]|].
+  - apply WI_emit_event. exact W2.
+  - assert (HR : WI c G H0 z ex (handle_response c s2 na rid rb now)) by (apply WI_handle_response; exact W2).
+    destruct (s_await se') as [arid|]; [|exact HR].
+    destruct (N.eqb rid arid); [|exact HR].
+    match goal with |- context [fail_session c ?x na ERR_INVALID_REMOTE_ENR true] => set (s3 := x) end.
+    assert (W3 : WI c G H0 z ex s3).
+    { unfold s3.
+      assert (W3 : WI c G H0 z ex (with_hs s2 (sess_put (hs s2) na
+                   {| s_enc := s_enc se'; s_dec := s_dec se'; s_old := s_old se'; s_await := None;
+                      s_counter := s_counter se' |}))).
+      { apply WI_sess_put_keys; [|exact W2]. intros k Hk'. apply Hk. exact Hk'. }
+      destruct (fix_d2b c); [|exact W3].
+      match goal with |- context [ar_remove_request ?h na rid] =>
+        destruct (ar_remove_request h na rid) as [h4 found] eqn:E end.
+      destruct found as [r|]; [|exact W3].
+      apply WI_remove_expected. eapply WI_drop. eapply WI_take_request; [exact E|exact W3]. }
+    clearbody s3.
+    destruct rb as [total recs|tag]; [|apply WI_fail_session; exact W3].
+    destruct (rev recs) as [|e t]; [apply WI_fail_session; exact W3|].
+    destruct (verify_enr e na); [apply WI_emit_event; exact W3|].
+    apply WI_fail_session. apply WI_emit_event. exact W3.
+  - exact W2.
+  - match goal with |- context [has_challenge (hs ?x) na] => assert (W3 : WI c G H0 z ex x) end.
+    { apply WI_fail_session. exact W2. }
+    destruct (has_challenge _ na); [exact W3|apply WI_emit_event; exact W3].
+Qed.
+
+Lemma WI_G_nil c G H0 z ex s : WI c G H0 z ex s -> WI c (G ++ []) H0 z ex s.
+Proof. rewrite app_nil_r. auto. Qed.
+
+(* a key that has not been installed has carried nothing *)
+Lemma WI_unused c G H0 z ex s k : WI c G H0 z ex s -> ~ In k G -> forall x, wcnt x k (H0 ++ outs s) = 0.
+Proof.
+  intros W Hk x. destruct (wcnt x k (H0 ++ outs s)) eqn:E; [reflexivity|].
+  exfalso. apply Hk. apply (W_K _ _ _ _ _ _ _ _ W x k). lia.
+Qed.
+
+(* Handler::handle_auth_message *)
+Lemma WI_handle_auth_message c G H0 z ex s na n aad sg eph eph_ok rec ct now :
+  WI c G H0 z ex s ->
+  let ik := match chall_get na (challenges (hs s)) with
+            | Some ch => match establish c (fst na) ch sg eph eph_ok rec with EstOk se _ => sess_keys se | _ => [] end
+            | None => []
+            end in
+  (forall k, In k ik -> ~ In k G) ->
+  WI c (G ++ ik) H0 z ex (handle_auth_message c s na n aad sg eph eph_ok rec ct now).
+Proof.
+  intros W. cbn zeta. unfold handle_auth_message.
+  destruct (chall_get na (challenges (hs s))) as [ch|]; [|intros _; apply WI_G_nil; exact W].
+  set (s1 := with_hs s (set_challenges (hs s) (chall_remove na (challenges (hs s))))).
+  assert (W1 : WI c G H0 z ex s1) by (unfold s1; apply WI_frame_same; auto).
+  clearbody s1.
+  destruct (establish c (fst na) ch sg eph eph_ok rec) as [se e| |]; intros HF.
+  - apply WI_handle_message.
+    set (s3 := if verify_enr e na then _ else _).
+    assert (W3 : WI c G H0 z ex s3).
+    { unfold s3. destruct (verify_enr e na); apply WI_emit_event; apply WI_remove_expected; exact W1. }
+    clearbody s3. apply WI_new_session.
+    + eapply WI_G; [|exact W3]. apply incl_appl, incl_refl.
+    + intros k Hk. apply in_or_app. right. exact Hk.
+    + intros l r _ _ _. apply (WI_unused c G H0 z ex s3); [exact W3|]. apply HF. left. reflexivity.
+  - apply WI_G_nil. apply WI_frame_same; auto.
+  - apply WI_G_nil. apply WI_fail_session. destruct (fix_d6 c); [apply WI_remove_expected|]; exact W1.
+Qed.
